@@ -127,6 +127,19 @@ Fixpoint drain_loop (g : nat -> nat) (pt : nat -> nat) (max : nat) (fuel k : nat
 Definition drain_exit (rs : list request) (pt : nat -> nat) (max : nat) : option nat :=
   drain_loop (gauge rs) pt max (max + 2) 0.
 
+(* per protocol: the moment a request becomes a stream (request_active + 1).
+   bolt (stream/xprotocol Dispatch) and HTTP/1.1 (stream/http serve: fasthttp ReadLimitBody, then NewStreamDetect) decode a
+   request only when it has arrived completely; HTTP/2 (stream/http2 handleFrame) creates the stream on the HEADERS frame.
+   An exchange is given by client-side times: first byte sent, part 1 (HEADERS) sent, whole request sent, reply complete. *)
+Inductive proto := PBolt | PHttp1 | PHttp2.
+Record exch := mkX { x_proto : proto; x_first : nat; x_hdr : nat; x_sent : nat; x_done : nat }.
+Definition stream_at (x : exch) : nat := match x_proto x with PHttp2 => x_hdr x | _ => x_sent x end.
+Definition req_of (x : exch) : request := mkR (x_first x) (stream_at x - x_first x) (x_done x - stream_at x) 0.
+Definition x_wf (x : exch) : Prop := x_first x <= x_hdr x /\ x_hdr x <= x_sent x /\ x_sent x <= x_done x.
+(* does the server tell an existing connection to go away on Shutdown?  HTTP/2: GOAWAY; HTTP/1: GoAway() is empty;
+   bolt: the go-away frame is disabled in the default configuration *)
+Definition announces (p : proto) : bool := match p with PHttp2 => true | _ => false end.
+
 (* ------------------------------------------------------------------ 3. transfer codec *)
 Open Scope N_scope.
 Definition u32 (n : N) : N := n mod 4294967296.
@@ -256,12 +269,17 @@ Definition lis_mismatches (l : list lis_case) : list nat := mismatches_from lis_
    observed: time Shutdown returned, and per request whether its reply was complete by then.
    The model's exit time with polls every `tick` ms must agree within the tolerance, and each request that the model
    says is complete at the earliest possible exit must be observed complete. *)
-Definition drain_case := (list request * nat * nat * nat * nat * nat)%type.
+Definition drain_case := (list exch * nat * nat * nat * nat * nat)%type.
 Definition drain_case_ok (k : drain_case) : bool :=
-  match k with (rs, s, max, tick, tol, exit_obs) =>
-    match drain_exit rs (fun i => s + i * tick) max with
+  match k with (xs, s, max, tick, tol, exit_obs) =>
+    match drain_exit (map req_of xs) (fun i => s + i * tick) max with
     | None => false
     | Some i => let e := s + i * tick in andb (e <=? exit_obs + tol) (exit_obs <=? e + tol)
     end
   end.
 Definition drain_mismatches (l : list drain_case) : list nat := mismatches_from drain_case_ok 0 l.
+
+(* what an existing connection was told by the time Shutdown returned: protocol, announced? *)
+Definition ann_case := (proto * bool)%type.
+Definition ann_case_ok (k : ann_case) : bool := match k with (p, a) => Bool.eqb (announces p) a end.
+Definition ann_mismatches (l : list ann_case) : list nat := mismatches_from ann_case_ok 0 l.
